@@ -220,7 +220,7 @@ class Ctx:
             raise PathEnd("assume infeasible")
 
     # -- obligations --------------------------------------------------------------------
-    def prove(self, name, goal, detail=""):
+    def prove(self, name, goal, detail="", assume_after=True):
         if isinstance(goal, SBool):
             goal = goal.t
         if isinstance(goal, bool):
@@ -231,7 +231,7 @@ class Ctx:
         for c in self.pc:
             s.add(c)
         s.add(z3.Not(goal))
-        size = sum(_term_size(c) for c in self.pc) + _term_size(goal)
+        size = _term_size(goal, 3000) + len(self.pc)
         r = s.check()
         backend = "z3-%s" % z3.get_version_string()
         model = None
@@ -251,6 +251,8 @@ class Ctx:
         ob = Obligation(name, status, backend, time.time() - t0, self.path_id, model, detail, size)
         self.run.record(ob)
         # assert-then-assume: later obligations on this path may rely on the goal
+        if not assume_after and status == "discharged":
+            return True
         self.add(goal)
         if status != "discharged" and self._check() == z3.unsat:
             raise PathEnd("after failed obligation")
@@ -418,9 +420,52 @@ class Run:
 CUR: Ctx | None = None
 
 
-def cur() -> Ctx:
+class NullCtx:
+    """context for running instrumented code on purely concrete data (differential self-test):
+    every condition must simplify to a constant"""
+
+    def __init__(self):
+        self.aux = {}
+        self.ghost = {}
+        self.inputs = {}
+        self.counter = itertools.count()
+
+    def _const(self, cond):
+        if isinstance(cond, SBool):
+            cond = cond.t
+        if isinstance(cond, bool):
+            return cond
+        cond = z3.simplify(cond)
+        if z3.is_true(cond):
+            return True
+        if z3.is_false(cond):
+            return False
+        raise RuntimeError("symbolic condition outside a symbolic path context: %s" % cond)
+
+    branch = valid = feasible = _const
+
+    def add(self, cond):
+        pass
+
+    fact = add
+
+    def assume(self, cond):
+        if not self._const(cond):
+            raise PathEnd("assume False")
+
+    def fresh(self, base):
+        return "%s!%d" % (base, next(self.counter))
+
+
+_NULL = None
+
+
+def cur():
+    global _NULL
     if CUR is None:
-        raise RuntimeError("no symbolic path context (symbolic value used outside exploration)")
+        if _NULL is None:
+            _NULL = NullCtx()
+        return _NULL
     return CUR
 
 
@@ -500,11 +545,12 @@ def Implies(a, b):
     return SBool(z3.Implies(tobool(a), tobool(b)))
 
 
-def Ite(c, a, b):
+def Ite(c, a, b, bv=False):
     """pure (non-forking) conditional on ints"""
     c = tobool(c)
-    if isinstance(a, SBV) or isinstance(b, SBV):
-        return SBV(z3.If(c, tobv(a), tobv(b)))
+    if bv or isinstance(a, SBV) or isinstance(b, SBV):
+        ba, bb = _bits(a), _bits(b)
+        return SBV(z3.If(c, tobv(a), tobv(b)), max(ba, bb) if ba is not None and bb is not None else None)
     return SInt(z3.If(c, toint(a), toint(b)))
 
 
@@ -788,13 +834,15 @@ def tobv_checked(v: SInt) -> "SBV":
 class SBV:
     """a Python int that takes part in bit operations: modelled as a signed 64-bit vector.
     Every operation that could leave the window (+, -, *, <<, unary -) emits a *nowrap*
-    obligation; when those are discharged the bit-vector result equals the unbounded-int
-    result, so machine arithmetic is never silently treated as mathematical."""
-    __slots__ = ("t",)
+    obligation unless a static magnitude bound (`bits`: the value is in [0, 2^bits)) already
+    shows that it cannot; when those are discharged the bit-vector result equals the
+    unbounded-int result, so machine arithmetic is never silently treated as mathematical."""
+    __slots__ = ("t", "bits")
     _pyvc_symbolic = True
 
-    def __init__(self, t):
+    def __init__(self, t, bits=None):
         self.t = t
+        self.bits = bits          # None: unknown / possibly negative
 
     @staticmethod
     def _nowrap(cond, what):
@@ -802,13 +850,15 @@ class SBV:
         cond = z3.simplify(cond)
         if z3.is_true(cond):
             return
-        key = "nowrap.%s" % what
-        c.prove(c.run.oblig_prefix + key, cond)
+        c.prove(c.run.oblig_prefix + "nowrap.%s%s" % (what, _repo_site()), cond, assume_after=False)
 
     def __add__(self, o):
         if not _intlike(o):
             return NotImplemented
         b = tobv(o)
+        bb = _bits(o)
+        if self.bits is not None and bb is not None and max(self.bits, bb) + 1 <= BVW - 2:
+            return SBV(self.t + b, max(self.bits, bb) + 1)
         self._nowrap(z3.And(z3.BVAddNoOverflow(self.t, b, True), z3.BVAddNoUnderflow(self.t, b)), "add")
         return SBV(self.t + b)
 
@@ -822,12 +872,15 @@ class SBV:
         return SBV(self.t - b)
 
     def __rsub__(self, o):
-        return SBV(tobv(o)).__sub__(self)
+        return SBV(tobv(o), _bits(o)).__sub__(self)
 
     def __mul__(self, o):
         if not _intlike(o):
             return NotImplemented
         b = tobv(o)
+        bb = _bits(o)
+        if self.bits is not None and bb is not None and self.bits + bb <= BVW - 2:
+            return SBV(self.t * b, self.bits + bb)
         self._nowrap(z3.And(z3.BVMulNoOverflow(self.t, b, True), z3.BVMulNoUnderflow(self.t, b)), "mul")
         return SBV(self.t * b)
 
@@ -841,17 +894,29 @@ class SBV:
         return SBV(~self.t)
 
     def __and__(self, o):
-        return SBV(self.t & tobv(o))
+        bb = _bits(o)
+        bits = None
+        if self.bits is not None and bb is not None:
+            bits = min(self.bits, bb)
+        elif bb is not None:
+            bits = bb           # x & nonneg-mask is in [0, mask]
+        elif self.bits is not None:
+            bits = self.bits
+        return SBV(self.t & tobv(o), bits)
 
     __rand__ = __and__
 
     def __or__(self, o):
-        return SBV(self.t | tobv(o))
+        bb = _bits(o)
+        bits = max(self.bits, bb) if (self.bits is not None and bb is not None) else None
+        return SBV(self.t | tobv(o), bits)
 
     __ror__ = __or__
 
     def __xor__(self, o):
-        return SBV(self.t ^ tobv(o))
+        bb = _bits(o)
+        bits = max(self.bits, bb) if (self.bits is not None and bb is not None) else None
+        return SBV(self.t ^ tobv(o), bits)
 
     __rxor__ = __xor__
 
@@ -861,7 +926,8 @@ class SBV:
             raise ValueError("negative shift count")
         if k >= BVW:
             k = BVW - 1
-        return SBV(self.t >> k)       # arithmetic shift == Python's >> on negative ints
+        bits = None if self.bits is None else max(self.bits - k, 0)
+        return SBV(self.t >> k, bits)       # arithmetic shift == Python's >> on negative ints
 
     def __lshift__(self, o):
         k = conc_int(o, "shift amount")
@@ -870,17 +936,19 @@ class SBV:
         if k >= BVW:
             raise Undecided("shift beyond the bit-vector window")
         r = self.t << k
+        if self.bits is not None and self.bits + k <= BVW - 2:
+            return SBV(r, self.bits + k)
         self._nowrap((r >> k) == self.t, "shl")
         return SBV(r)
 
     def __mod__(self, o):
         if isinstance(o, int) and o > 0 and (o & (o - 1)) == 0:
-            return SBV(self.t & z3.BitVecVal(o - 1, BVW))
+            return SBV(self.t & z3.BitVecVal(o - 1, BVW), o.bit_length() - 1)
         raise Undecided("bit-vector modulo")
 
     def __floordiv__(self, o):
         if isinstance(o, int) and o > 0 and (o & (o - 1)) == 0:
-            return SBV(self.t >> (o.bit_length() - 1))
+            return self >> (o.bit_length() - 1)
         raise Undecided("bit-vector division")
 
     def _cmp(self, o, f):
@@ -938,3 +1006,34 @@ class SBV:
 
     def to_bytes(self, length=1, byteorder="big", *, signed=False):
         return SInt(z3.BV2Int(self.t, True)).to_bytes(length, byteorder, signed=signed)
+
+
+def _bits(o):
+    """static magnitude bound: o is in [0, 2^bits), or None"""
+    if isinstance(o, SBV):
+        return o.bits
+    if isinstance(o, bool):
+        return 1
+    if isinstance(o, int):
+        return o.bit_length() if o >= 0 else None
+    if isinstance(o, SBool):
+        return 1
+    return None
+
+
+def byte_bv(t):
+    """bit-vector view of an Int term known to be a byte (0..255)"""
+    return SBV(z3.Int2BV(t, BVW), 8)
+
+
+def _repo_site():
+    """@line of the innermost frame that executes repository code (stable obligation names)"""
+    import sys
+    f = sys._getframe(2)
+    repo = os.environ.get("PYVC_REPO", "/repo")
+    while f is not None:
+        fn = f.f_code.co_filename
+        if fn.startswith(repo + "/") or fn.startswith("/repo/"):
+            return "@%s:%d" % (os.path.basename(fn), f.f_lineno)
+        f = f.f_back
+    return "@spec"
